@@ -4,10 +4,12 @@
 Go code mirrored (as it is now):
 
 ```go
-// sample/deterministic.go
+// sample/deterministic.go   (after the C28 repair, commit 2ccad7d)
 func (d *DeterministicSampler) Start() error {
     d.sampleRate = d.Config.SampleRate                       // int (64 bit), any value: no range validation
-    d.upperBound = math.MaxUint32 / uint32(d.sampleRate)     // truncating conversion; panics when it is 0
+    if d.sampleRate > 1 {
+        d.upperBound = uint32(math.MaxUint32 / uint64(d.sampleRate))   // 64-bit division, divisor >= 2
+    }                                                        // otherwise upperBound stays 0 and is never read
 }
 func (d *DeterministicSampler) GetSampleRate(trace) (rate uint, keep bool, reason string, key string) {
     if d.sampleRate <= 1 { return 1, true, "deterministic/always", "" }
@@ -30,7 +32,7 @@ func (s *StressRelief) GetSampleRate(traceID string) (rate uint, keep bool, reas
 The hash value (`v`, `hash`) is a **parameter**: the harness computes it with the same library
 call and the package's own salt/seed and passes it as an `ext` line; the theorems quantify over
 every hash value.  Fixed-width arithmetic is `Nat`/`Int` with the truncation written out
-(`toU32`); unsigned division is the checked `udiv` (a zero divisor is the explicit outcome
+(`toU32`, here of a value that always fits); unsigned division is the checked `udiv` (a zero divisor is the explicit outcome
 `panicDivZero`, never `x / 0 = 0`).  `int`/`uint` are 64 bits wide (amd64/arm64).
 -/
 namespace Refinery.Model.Deterministic
@@ -40,8 +42,8 @@ def maxU32 : Nat := 4294967295
 /-- `math.MaxUint64` -/
 def maxU64 : Nat := 18446744073709551615
 
-/-- Go conversion `uint32(x)` of an `int` (two's complement): the low 32 bits. -/
-def toU32 (x : Int) : Nat := (x % 4294967296).toNat
+/-- Go conversion `uint32(x)` of a `uint64`: the low 32 bits. -/
+def toU32 (x : Nat) : Nat := x % 4294967296
 
 /-- Result of a call that may panic. -/
 inductive Outcome (α : Type) where
@@ -74,11 +76,15 @@ structure Det where
   upperBound : Nat          -- `uint32`
   deriving Repr, DecidableEq
 
-/-- `DeterministicSampler.Start` for a configured `SampleRate`. -/
+/-- `DeterministicSampler.Start` for a configured `SampleRate`: for `rate > 1` the bound is
+`uint32(MaxUint32 / uint64(rate))` (for a positive `int`, `uint64(rate)` is the same number);
+otherwise the field keeps its zero value. -/
 def Det.start (rate : Int) : Outcome Det :=
-  match udiv maxU32 (toU32 rate) with
-  | .ok ub => .ok { sampleRate := rate, upperBound := ub }
-  | .panicDivZero => .panicDivZero
+  if rate > 1 then
+    match udiv maxU32 rate.toNat with
+    | .ok q => .ok { sampleRate := rate, upperBound := toU32 q }
+    | .panicDivZero => .panicDivZero
+  else .ok { sampleRate := rate, upperBound := 0 }
 
 /-- `DeterministicSampler.GetSampleRate`; `h` = big-endian uint32 of the first four bytes of
 `sha1(traceID ++ shardingSalt)`. -/
